@@ -4,11 +4,11 @@ import CanVerif.Proofs.DbcRoundtrip
 # C05 — the DBC round trip as a theorem about the whole reader: frames, signals, senders, comments
 
 `writeCore` is the part of `dbc.dump` that writes the frame section, the `BO_TX_BU_` lines, the comments of the frames and the comments
-of the signals and the `VAL_` lines (in that order, as the writer does); `readFile` is the line loop of `dbc.load` (Model/DbcFile.lean, tied to the real reader
+of the signals, the `VAL_`, `SIG_VALTYPE_`, `SIG_GROUP_` and `SG_MUL_VAL_` lines (in that order, as the writer does); `readFile` is the line loop of `dbc.load` (Model/DbcFile.lean, tied to the real reader
 on every generated file).  For every list of frames - unbounded in the number of frames, signals, senders and comment lines - inside the
 envelope `WFrame.wf` (well-formed lines, numbers that denote pairwise different identifiers, pairwise different senders, pairwise
 different signal names within a frame, comments the statement can carry), reading what was written builds exactly these frames.
-The attribute, group and multiplex statements are covered statement by statement (Props/C05b-e, C05g) and by the file-level
+The attribute statements are covered statement by statement (Props/C05b-e, C05g) and by the file-level
 fold (Props/C05f); that their folds give the matrix back, and the post-processing, are decided by the round-trip observation.
 -/
 namespace CanVerif.C05h
@@ -45,16 +45,17 @@ def exSg (name : String) (start : Nat) : SgLine :=
 def exFrames : List (WFrame × (Nat × Bool)) :=
   [({ bo := ⟨291, "Engine".toList, 8, "ECU_A".toList⟩,
       sigs := [{ sg := exSg "Speed" 0, comment := some "vehicle speed\nsecond line".toList, values := [(255, "invalid".toList), (0, "stand \"still\"".toList)] },
-               { sg := exSg "Rpm" 8 }],
-      moreSenders := ["Gateway".toList], comment := some "engine data".toList }, (291, false)),
+               { sg := { exSg "Rpm" 8 with size := 32 }, isFloat := true }],
+      moreSenders := ["Gateway".toList], comment := some "engine data".toList,
+      groups := [{ name := "Grp".toList, id := 1, members := ["Rpm".toList, "Speed".toList] }] }, (291, false)),
    ({ bo := ⟨2147483939, "EngineExt".toList, 8, "ECU_A".toList⟩, sigs := [{ sg := exSg "Speed" 0 }] }, (291, true))]
 
 example : exFrames.all (fun p => p.1.wf p.2) = true := by decide +kernel
 example : (writeCore (exFrames.map (·.1))).map String.ofList =
-    ["BO_ 291 Engine: 8 ECU_A", " SG_ Speed : 0|8@1+ (0.5,0) [0|100] \"km/h\" ECU_B", " SG_ Rpm : 8|8@1+ (0.5,0) [0|100] \"km/h\" ECU_B", "",
+    ["BO_ 291 Engine: 8 ECU_A", " SG_ Speed : 0|8@1+ (0.5,0) [0|100] \"km/h\" ECU_B", " SG_ Rpm : 8|32@1+ (0.5,0) [0|100] \"km/h\" ECU_B", "",
      "BO_ 2147483939 EngineExt: 8 ECU_A", " SG_ Speed : 0|8@1+ (0.5,0) [0|100] \"km/h\" ECU_B", "",
      "BO_TX_BU_ 291 : ECU_A,Gateway;", "CM_ BO_ 291  \"engine data\";", "CM_ SG_ 291 Speed \"vehicle speed", "second line\";",
-     "VAL_ 291 Speed 255 \"invalid\" 0 \"stand \\\"still\\\"\";"] := by
+     "VAL_ 291 Speed 255 \"invalid\" 0 \"stand \\\"still\\\"\";", "SIG_VALTYPE_ 291 Rpm : 1;", "SIG_GROUP_ 291 Grp 1 : Rpm Speed;"] := by
   decide +kernel
 example : (readFile (writeCore (exFrames.map (·.1)))).frames = exFrames.map (fun p => p.1.expect p.2) := by decide +kernel
 /-- without pairwise different identifiers the statement does not hold: two frames under one number, the comment of the first goes to the
